@@ -1891,6 +1891,9 @@ def forced_interleavings(ctx, exe, oracle, prog, pos, concrete, corr, dist, expe
                       "preempted mid-program is parked with strace -e inject=<syscall>:signal=STOP:when=<n> and resumed "
                       "with SIGCONT; afterwards count the live munged processes holding a listening socket bound to the "
                       "socket path (/proc/net/unix, /proc/<pid>/fd)"}
+        if name.startswith("F-C15-unlink:") and len(r["bound"]) < 2:
+            ctx.notes.append("the F-C15-unlink schedule was forced but did not end with two bound daemons: live %s bound %s "
+                             "lock holder %s" % (r["live"], r["bound"], r["lock_holder"]))
         if len(r["bound"]) >= 2 and name.startswith("F-C15-unlink:"):
             ctx.violation("two live munged (pids %s) bound to one socket path after a clean stop overlapping a start (lock file "
                           "unlinked while another start had it open, unlocked): [%s] = %s"
